@@ -129,17 +129,77 @@ def run(ctx):
                     ctx.notes.append('divergence in %s at step %s %s: observed a=%s b=%s gotA=%s gotB=%s flight=%s/%s ; model=%s' % (
                         tid, row['i'], row['ev'], row['a'], row['b'], row['gotA'], row['gotB'], row['flightAB'], row['flightBA'], json.dumps(m[2], default=str)[:500]))
         ctx.divergences += len(seen)
+    live_rows = live(ctx, quick)
     negative_control(ctx, rows_all)
     settled = [r_ for r_ in rows_all if r_['ev'].get('k') == 'Settled']
     ctx.cov.update({
         'states': states, 'transitions': trans, 'graph_edges': g.m, 'traces_validated_against_impl': len(mem_scripts) + len(file_scripts),
         'evaluations': len(rows_all), 'distinct_nontrivial': len(set(json.dumps(s['steps']) for s in mem_scripts + file_scripts)),
         'rule': 'one trace = one fault schedule executed on two real sessions followed by the settling rounds; distinct schedules counted',
+        'live_runs': len(live_rows), 'live_runs_with_restart': sum(1 for r_ in live_rows if 'restartI' in r_['events']),
+        'live_messages': sum(len(r_['gotA']) + len(r_['gotI']) for r_ in live_rows),
         'messages_delivered': sum(len(r_['gotA']) + len(r_['gotB']) for r_ in settled),
         'samples': [{'steps': mem_scripts[0]['steps'][:8]}, {'settled': {k: settled[0][k] for k in ('gotA', 'gotB', 'subA', 'subB')}}], 'exhaustive': False,
     })
-    ctx.assumptions += ['sequence resets disabled; FIX.4.2; the synchronous two-engine driver (no real sockets, no wall-clock timers)',
+    ctx.assumptions += ['sequence resets disabled; FIX.4.2; forced schedules run on the synchronous two-engine driver (no real sockets, no wall-clock timers); '
+                        'the real Acceptor/Initiator over loopback TCP run timed (not forced) schedules with HeartBtInt 1 s, and "the link stays up" means up to 25 s',
                         'a cut loses everything still in flight (any suffix, since deliveries may precede it); restarts only with the file store']
+
+
+def live(ctx, quick):
+    """timed schedules on the real Acceptor and Initiator over loopback TCP (several processes: the session
+    registry is process wide), judged by PairLiveTrace.tla"""
+    import subprocess
+    procs = []
+    nproc, runs = (4, 3) if quick else (8, 12)
+    for k in range(nproc):
+        tp = os.path.join(ctx.scratch, 'live_%d.ndjson' % k)
+        procs.append((tp, subprocess.Popen([ctx.vh, 'live', '-out', tp, '-runs', str(runs), '-seed', str(ctx.seed * 100 + k)],
+                                           stdout=subprocess.PIPE, stderr=subprocess.PIPE, text=True)))
+    rows = []
+    skipped = 0
+    for tp, p in procs:
+        try:
+            out, err = p.communicate(timeout=3000)
+        except subprocess.TimeoutExpired:
+            p.kill()
+            raise common.Infra('vh live timed out')
+        if p.returncode != 0:
+            fatal = [l_ for l_ in err.splitlines() if l_.startswith('fatal error:') or l_.startswith('panic:')]
+            if fatal:
+                ctx.report({'family': 'pairlive', 'clause': 'panic'}, 'the engines died in a live run: %s' % fatal[0], {'stderr_head': err[:1500]})
+                continue
+            raise common.Infra('vh live failed: ' + err[-1500:])
+        skipped += sum(1 for l_ in err.splitlines() if l_.startswith('live: skipped:'))
+        rows += common.ndjson_read(tp)
+    if skipped:
+        ctx.notes.append('%d live run(s) void (the engines did not log on in time)' % skipped)
+    if not rows:
+        raise common.Infra('no live run completed')
+    void = [r_ for r_ in rows if not r_['converged'] and not (r_['onA'] and r_['onI'])]
+    if void:
+        ctx.notes.append('%d live run(s) ended with a side not logged on after 25 s of link up: not judged for completion' % len(void))
+        if len(void) * 2 > len(rows):
+            raise common.Infra('more than half of the live runs ended without both sides logged on')
+    content = '\n'.join(json.dumps(r_, separators=(',', ':')) for r_ in rows) + '\n'
+    cfg = 'SPECIFICATION TraceSpec\nPOSTCONDITION AllConsumed\nCHECK_DEADLOCK FALSE\n'
+    v = ctx.tlc('PairLiveTrace.tla', 'lv.cfg', workers=1, timeout=1200, files={'trace.ndjson': content, 'lv.cfg': cfg})
+    if v['rc'] != 0 or 'Model checking completed. No error has been found.' not in v['out']:
+        raise common.Infra('PairLiveTrace did not run to completion:\n' + v['out'][-2500:])
+    for m in common.printed(v['out'], 'VIOL'):
+        row = rows[int(m[1]) - 1]
+        for c in sorted(m[2]):
+            ctx.report({'family': 'pairlive', 'clause': c, 'restart': 'restartI' in row['events']},
+                       'C05 clause %s on the real Acceptor/Initiator over TCP (seed %s): events=%s sentI=%s gotA=%s sentA=%s gotI=%s logged on: %s/%s' % (
+                           c, row['seed'], row['events'], row['sentI'], row['gotA'], row['sentA'], row['gotI'], row['onA'], row['onI']), {'live': row})
+    # negative control: a lost delivery in a recorded run must be flagged
+    import copy
+    bad = copy.deepcopy(next(r_ for r_ in rows if r_['gotA'] and r_['onA'] and r_['onI']))
+    bad['gotA'] = bad['gotA'][:-1]
+    v2 = ctx.tlc('PairLiveTrace.tla', 'lv.cfg', workers=1, timeout=600, files={'trace.ndjson': json.dumps(bad) + '\n', 'lv.cfg': cfg})
+    if not any('completion' in m[2] for m in common.printed(v2['out'], 'VIOL')):
+        raise common.Infra('negative control failed: a lost delivery in a live run was accepted')
+    return rows
 
 
 def split(rows, n):
